@@ -317,3 +317,20 @@ fn drd_total_count_extreme() {
     assert!(r.is_err());
     core::mem::forget(r);
 }
+
+/// C04 (bounded): a moment block that declares more gate bytes than the input holds (gates fully symbolic, word size
+/// 8 or 16, only 4 data bytes present) is an error — never a hang, a panic, or an allocation beyond gates x 2 bytes
+#[kani::proof]
+#[kani::unwind(8)]
+fn drd_total_gates_short() {
+    let mut bytes: [u8; 36 + 28 + 4] = kani::any();
+    one_block(&mut bytes, b"REF");
+    let gates = be16(&bytes, 36 + 8);
+    let ws = bytes[36 + 19];
+    kani::assume(ws == 8 || ws == 16);
+    kani::assume(gates as usize * (ws as usize / 8) > 4);
+    let mut c = SliceReader { buf: &bytes[..], pos: 0 };
+    let r = decode_digital_radar_data(&mut c);
+    assert!(r.is_err());
+    core::mem::forget(r);
+}
